@@ -122,7 +122,28 @@ def make_workload(seed, i):
             if f2:
                 files, _ = f2, what.append(d)
         desc["invalidations"] = what
+    # command-line overrides of manifest keys (--config key=value): some that exist, and for some cases several that do not
+    ar = rng.fork("args")
+    if ar.chance(0.3):
+        good = []
+        for t in sorted(pkg.targets):
+            good.append("%s.disabled=%s" % (t, ar.choice(["false", "false", "true"])))
+            if t in ("cpp", "python"):
+                good.append("%s.generateNDJson=%s" % (t, ar.choice(["true", "false"])))
+        bad = ["nosuch.key=1", "cpp.nosuchOption=true", "zzz=1", "python.outputdir=../x", "Namespace=Other", "imports.extra=../nowhere"]
+        chosen = ar.sample(good, ar.randint(0, min(2, len(good)))) if good else []
+        if ar.chance(0.45):
+            chosen += ar.sample(bad, ar.randint(2, 4))
+            desc["unknown_config_keys"] = True
+        ar.shuffle(chosen)
+        if chosen:
+            desc["args"] = ["generate"] + [x for kv in chosen for x in ("--config", kv)]
     return desc, files, "/w/pkg"
+
+
+def oneshot(desc, files, cwd, **kw):
+    """The command line of the case: `generate`, for some cases with --config overrides."""
+    return tw.oneshot_spec(files, cwd, args=tuple((desc or {}).get("args") or ("generate",)), **kw)
 
 
 def sched_for(seed, i, k):
@@ -138,7 +159,7 @@ def run_case(sim, check, seed, i, K, n_crash):
     # each execution also gets its own goroutine schedule (should the tool start goroutines): run to completion first,
     # then the other scheduler policies with a seed of their own
     scheds = [sched_for(seed, i, k) for k in range(K)]
-    results = [sim.run(tw.oneshot_spec(files, cwd, **sc), mapseed=ms) for ms, sc in zip(mapseeds, scheds)]
+    results = [sim.run(oneshot(desc, files, cwd, **sc), mapseed=ms) for ms, sc in zip(mapseeds, scheds)]
     stats_goroutines = max(len({o.get("g") for o in r.get("ops", []) if o.get("g")}) for r in results)
     outs = [outcome(r) for r in results]
     stats = {"runs": K, "desc": desc, "accepted": outs[0][0] == "returned" and outs[0][1] == 0,
@@ -159,7 +180,7 @@ def run_case(sim, check, seed, i, K, n_crash):
         populated.update(tw.tree_files(results[0]["tree"]))
         links = {p: e["t"] for p, e in results[0]["tree"].items() if e["k"] == "l"}
         for ms in (mapseeds[0], mapseeds[-1]):
-            r2 = sim.run(tw.oneshot_spec(populated, cwd, links=links, dirs=tw.tree_dirs(results[0]["tree"])), mapseed=ms)
+            r2 = sim.run(oneshot(desc, populated, cwd, links=links, dirs=tw.tree_dirs(results[0]["tree"])), mapseed=ms)
             stats["runs"] += 1
             muts = [o for o in r2.get("ops", []) if o.get("mut")]
             d = tw.tree_diff(results[0]["tree"], r2.get("tree", {})) if r2.get("tree") else [("died", "")]
@@ -175,7 +196,7 @@ def run_case(sim, check, seed, i, K, n_crash):
         clean = tw.tree_files(results[0]["tree"])
         for k in ks:
             tear = rng.choice(TEARS)
-            rc = sim.run(tw.oneshot_spec(files, cwd, crash_at=k, crash_tear=tear), mapseed=mapseeds[0])
+            rc = sim.run(oneshot(desc, files, cwd, crash_at=k, crash_tear=tear), mapseed=mapseeds[0])
             stats["runs"] += 1
             if rc.get("status") != "crashed":
                 continue
@@ -187,7 +208,7 @@ def run_case(sim, check, seed, i, K, n_crash):
                     stats["crash_left_same_size_torn_file"] = stats.get("crash_left_same_size_torn_file", 0) + 1
             after = dict(files)
             after.update(tw.tree_files(rc["tree"]))
-            r3 = sim.run(tw.oneshot_spec(after, cwd), mapseed=mapseeds[0])
+            r3 = sim.run(oneshot(desc, after, cwd), mapseed=mapseeds[0])
             stats["runs"] += 1
             got = tw.tree_files(r3["tree"]) if r3.get("tree") else {}
             badp = [p for p in clean if got.get(p) != clean[p]]
@@ -201,14 +222,14 @@ def run_case(sim, check, seed, i, K, n_crash):
             files2, what = token_edit(files, M.derive(seed, "dirty", i, j))
             if files2 is None:
                 break
-            c2 = sim.run(tw.oneshot_spec(files2, cwd), mapseed=mapseeds[0])
+            c2 = sim.run(oneshot(desc, files2, cwd), mapseed=mapseeds[0])
             stats["runs"] += 1
             if c2.get("status") != "returned" or c2.get("exit_code") != 0:
                 continue
             clean2 = tw.tree_files(c2["tree"])
             start = dict(tw.tree_files(results[0]["tree"]))
             start.update(files2)
-            d2 = sim.run(tw.oneshot_spec(start, cwd, links=links, dirs=tw.tree_dirs(results[0]["tree"])), mapseed=mapseeds[0])
+            d2 = sim.run(oneshot(desc, start, cwd, links=links, dirs=tw.tree_dirs(results[0]["tree"])), mapseed=mapseeds[0])
             stats["runs"] += 1
             stats["dirty_starts"] = stats.get("dirty_starts", 0) + 1
             got = tw.tree_files(d2["tree"]) if d2.get("tree") else {}
@@ -250,38 +271,39 @@ def token_edit(files, rng):
 
 def replay(sim, doc):
     files, cwd, ms = doc["files"], doc["cwd"], doc["mapseeds"]
+    desc = doc.get("case") or {}
     mode = doc["mode"]
     if mode == "seeds":
         sc = doc.get("scheds") or [{}, {}]
-        a = outcome(sim.run(tw.oneshot_spec(files, cwd, **sc[0]), mapseed=ms[0]))
-        b = outcome(sim.run(tw.oneshot_spec(files, cwd, **sc[1]), mapseed=ms[1]))
+        a = outcome(sim.run(oneshot(desc, files, cwd, **sc[0]), mapseed=ms[0]))
+        b = outcome(sim.run(oneshot(desc, files, cwd, **sc[1]), mapseed=ms[1]))
         what, where = first_diff(a, b)
         return bool(what), "%s %s" % (what, where)
     if mode == "rerun":
-        r1 = sim.run(tw.oneshot_spec(files, cwd), mapseed=ms[0])
+        r1 = sim.run(oneshot(desc, files, cwd), mapseed=ms[0])
         populated = dict(files); populated.update(tw.tree_files(r1["tree"]))
         links = {p: e["t"] for p, e in r1["tree"].items() if e["k"] == "l"}
-        r2 = sim.run(tw.oneshot_spec(populated, cwd, links=links, dirs=tw.tree_dirs(r1["tree"])), mapseed=ms[1])
+        r2 = sim.run(oneshot(desc, populated, cwd, links=links, dirs=tw.tree_dirs(r1["tree"])), mapseed=ms[1])
         muts = [o for o in r2.get("ops", []) if o.get("mut")]
         return bool(muts) or bool(tw.tree_diff(r1["tree"], r2["tree"])), str(muts[:2])
     if mode == "crash":
-        r1 = sim.run(tw.oneshot_spec(files, cwd), mapseed=ms[0])
+        r1 = sim.run(oneshot(desc, files, cwd), mapseed=ms[0])
         clean = tw.tree_files(r1["tree"])
-        rc = sim.run(tw.oneshot_spec(files, cwd, crash_at=doc["crash_at"], crash_tear=doc.get("crash_tear", "")), mapseed=ms[0])
+        rc = sim.run(oneshot(desc, files, cwd, crash_at=doc["crash_at"], crash_tear=doc.get("crash_tear", "")), mapseed=ms[0])
         after = dict(files); after.update(tw.tree_files(rc["tree"]))
-        r3 = sim.run(tw.oneshot_spec(after, cwd), mapseed=ms[0])
+        r3 = sim.run(oneshot(desc, after, cwd), mapseed=ms[0])
         got = tw.tree_files(r3["tree"])
         badp = [p for p in clean if got.get(p) != clean[p]]
         return bool(badp), str(badp[:3])
     if mode == "dirty":
-        r1 = sim.run(tw.oneshot_spec(files, cwd), mapseed=ms[0])
-        c2 = sim.run(tw.oneshot_spec(doc["files2"], cwd), mapseed=ms[0])
+        r1 = sim.run(oneshot(desc, files, cwd), mapseed=ms[0])
+        c2 = sim.run(oneshot(desc, doc["files2"], cwd), mapseed=ms[0])
         if c2.get("exit_code") != 0 or r1.get("exit_code") != 0:
             return False, "a package of the pair is no longer accepted"
         clean2 = tw.tree_files(c2["tree"])
         start = dict(tw.tree_files(r1["tree"])); start.update(doc["files2"])
         links = {p: e["t"] for p, e in r1["tree"].items() if e["k"] == "l"}
-        d2 = sim.run(tw.oneshot_spec(start, cwd, links=links, dirs=tw.tree_dirs(r1["tree"])), mapseed=ms[0])
+        d2 = sim.run(oneshot(desc, start, cwd, links=links, dirs=tw.tree_dirs(r1["tree"])), mapseed=ms[0])
         got = tw.tree_files(d2["tree"])
         badp = [p for p in sorted(clean2) if got.get(p) != clean2[p]]
         return bool(badp) or d2.get("exit_code") != 0, str(badp[:3])
@@ -334,7 +356,7 @@ def main():
     max_cases = 160 if quick else 100000
     totals = {"runs": 0, "accepted": 0, "rejected_with_diagnostics": 0, "with_versions": 0, "invalid": 0,
               "crash_points": 0, "crash_left_torn_file": 0, "crash_left_same_size_torn_file": 0, "warnings_seen": 0,
-              "dirty_starts": 0, "dirty_same_size_stale_file": 0, "cases_with_errors_in_several_versions": 0, "executions_with_a_seeded_goroutine_schedule": 0, "cases_in_which_the_tool_ran_several_goroutines": 0}
+              "dirty_starts": 0, "dirty_same_size_stale_file": 0, "cases_with_errors_in_several_versions": 0, "executions_with_a_seeded_goroutine_schedule": 0, "cases_in_which_the_tool_ran_several_goroutines": 0, "cases_with_config_overrides": 0, "cases_with_several_unknown_config_keys": 0}
     i = 0
     batch = 32
     while i < max_cases and check.elapsed() < budget:
@@ -350,6 +372,8 @@ def main():
             totals["invalid"] += 1 if d["kind"] == "invalid" else 0
             totals["cases_with_errors_in_several_versions"] += 1 if d.get("errors_in_several_versions") else 0
             totals["executions_with_a_seeded_goroutine_schedule"] += K - 1
+            totals["cases_with_config_overrides"] += 1 if d.get("args") else 0
+            totals["cases_with_several_unknown_config_keys"] += 1 if d.get("unknown_config_keys") else 0
             totals["cases_in_which_the_tool_ran_several_goroutines"] += 1 if stats.get("goroutines", 0) > 1 else 0
             totals["crash_points"] += stats.get("crash_points", 0)
             for key in ("crash_left_torn_file", "crash_left_same_size_torn_file", "dirty_starts", "dirty_same_size_stale_file"):
